@@ -54,7 +54,7 @@ func removeGate(file string) {
 	<-release
 }
 
-const raceDeadline = 8 * time.Second
+const raceDeadline = 15 * time.Second
 
 // runRace: two concurrent TruncateUptoTx calls on a store with several value logs must both return
 // ("repeated or concurrent truncation is harmless").
@@ -73,7 +73,7 @@ func runRace(seed int64, dir string, runs int, res *vh.Result) {
 		}
 		w.close()
 		both := 0
-		for a := 0; a < runs*6 && both < runs; a++ {
+		for a := 0; a < runs*10 && both < runs; a++ {
 			d := filepath.Join(dir, fmt.Sprintf("m%d_a%d", m, a))
 			copyDir(base, d)
 			c := &world{dir: d, m: m, f: 2, unit: 32, seed: seed, txs: w.txs, res: res}
